@@ -109,7 +109,7 @@ Definition DENOMS : list Z := [3; 0; 2; 1].
 
 Record c10_case := mkCase {
   c_op : op;
-  c_ct : Z; c_max : Z; c_leak : list Z; c_rw : list (list Z); c_released : Z;   (* oracle *)
+  c_ct : Z; c_ret : Z; c_max : Z; c_leak : list Z; c_rw : list (list Z); c_released : Z;   (* oracle *)
   c_pre : dstate;
   c_res : Z;                       (* 0 = ok, error class, 99 = panic *)
   c_post : option dstate;          (* None = identical to c_pre *)
@@ -130,7 +130,7 @@ Inductive pure_case :=
 Inductive c10_any := CStep (c : c10_case) | CPure (p : pure_case).
 
 Definition oracle_of (c : c10_case) : oracle :=
-  mkOracle (c_ct c) (c_max c) (nz (c_leak c)) (fun v d => nz (nl (c_rw c) v) d) (c_released c).
+  mkOracle (c_ct c) (c_max c) (nz (c_leak c)) (fun v d => nz (nl (c_rw c) v) d) (c_released c) (c_ret c).
 Fixpoint fill_same (pre post : list dcell) : list dcell :=
   match pre, post with
   | p :: pt, q :: qt => (if k_T q =? -1 then p else q) :: fill_same pt qt
@@ -234,7 +234,9 @@ Definition mon_paid (c : c10_case) : bool :=
       else match mature with [] => true | _ => false end
   | OUndelegate u v amt dn rcp =>
       if c_res c =? 0 then
-        match remove_one (d_next pre, rcp, c_ct c - T0, amt) (d_queue post) with
+        (* the entry records what staking reports it unbonds; never more than was asked *)
+        (c_ret c <=? amt) &&
+        match remove_one (d_next pre, rcp, c_ct c - T0, c_ret c) (d_queue post) with
         | Some q => list_eqb qrow_eqb q (d_queue pre) && (d_next post =? d_next pre + 1)
         | None => false
         end
